@@ -185,7 +185,7 @@ Z = ("Rule %s.z is change detection, not a semantic rule: the %s have the review
 EXTRA_NOTE = {
     "C02": "Rule (j) imports the C08 conditions (grouping decides which operands an operator relates). Rule (i) imports the scope discipline (PAIR incl. PAIR.own/PAIR.tparam) as a necessary condition: a leaked binder unifies the types of two variables. " + Z % ("C02", "68 compiler functions that build or unify types"),
     "C03": "Rule (ab) also covers the root-statement dispatchers (package_info emits nothing) and the written-text obligation (no pass of the driver rewrites declarations or imports after the emitters). Rule (g) imports C01.m (a declaration is emitted under the name written in the source). Rule (f): the Tparams list of every declaration value is the declared list (explicit type arguments bind by position). " + Z % ("C03", "29 compiler functions that write emitted text"),
-    "C06": "Rule (k): closed forms of the hand-written space scanner (a block comment runs to the first */). Rule (j): the state produced by consuming `=`, `with` or an expression-level `->` goes straight to psSkipEOL (14 sites, one frozen exception). " + Z % ("C06", "41 compiler functions that read a column, move the offside stack or skip line ends"),
+    "C06": "Rule (l): no function that finds a state's current token to be EOL steps (psNext) or peeks (psNextTT/psNextIs) a fixed number of tokens past it; only psSkipEOL looks beyond line ends. Rule (k): closed forms of the hand-written space scanner (a block comment runs to the first */). Rule (j): the state produced by consuming `=`, `with` or an expression-level `->` goes straight to psSkipEOL (14 sites, one frozen exception). " + Z % ("C06", "41 compiler functions that read a column, move the offside stack or skip line ends"),
     "C07": "Rule (j): the collector and the substitution that drive the forward-declaration loop have their reviewed closed forms (no placeholder survives its type group in the global info table). Rule (h): the scope tables are read only where a name is referenced (frozen who-may-read table). Rule (i): hoisted type parameters are named by position among the definition's own variables. PAIR.own (binders of an expression sit at depth >= 1 relative to the nearest enclosing entry of the expression parser) and PAIR.tparam (type-parameter names never land in the root scope) were added after seeded variants; the pin of transpileOne masks the written content (decided by C16.b/C05.f). " + Z % ("C07", "49 compiler functions that read or write a scope, the type-definition context or a global dictionary"),
     "C09": "Rule (i) imports the scope discipline (PAIR): the target of a match is the variable lexical scoping gives it. Rule (h): every pass that rebuilds a union's case list hands on an element-wise image of it. " + Z % ("C09", "13 compiler functions between a match expression and the exhaustiveness diagnostic"),
     "C15": "Rule (i): generic instantiation closed forms (GenType/GenRecordType/GenUnionType/tpreplace). " + Z % ("C15", "33 compiler functions that construct or print a type expression"),
